@@ -214,6 +214,21 @@ def run(ctx):
             ctx.violation({"asgi_event_gaps": gaps, "ping_interval": ping}, want, {"decoded": got},
                           "events yielded after a keep-alive ping are lost, duplicated or out of order")
         ctx.nontriv(("timed", tuple(gaps), ping))
+    # the same event dictionary yielded more than once (a tick event kept by the application) is delivered every time, unchanged
+    import baize.wsgi as W
+    from ..recipes import stream
+    for ev in ({"event": "tick", "data": "hello", "id": "7"}, {"data": "a\nb"}, {"retry": 5, "data": ""}):
+        for iface in ("wsgi", "asgi"):
+            shared = dict(ev)
+            resp = (W if iface == "wsgi" else A).SendEventResponse(stream(iface, [shared, shared, shared]), ping_interval=30)
+            r = servers.wsgi_call(resp, servers.Req()) if iface == "wsgi" else servers.asgi_call(resp, servers.Req())
+            ctx.count()
+            got = parse_stream(r.body.decode("utf-8")) if r.exc is None else "exc:" + type(r.exc).__name__
+            want = [expected_event(ev, ev.get("id", ""))] * 3
+            if got != want or shared != ev:
+                ctx.violation({"event_yielded_three_times": ev, "iface": iface}, want, {"decoded": got, "dictionary_afterwards": shared},
+                              "an event dictionary yielded repeatedly is not delivered each time (or is modified by the response)")
+            ctx.nontriv(("shared", iface, str(ev)))
     # per character: every code point as one-character data comes back unchanged
     from baize.responses import build_bytes_from_sse
     cps = range(0x110000) if ctx.tier == "thorough" else itertools.chain(range(0x3100), range(0xD7F0, 0xE010), range(0xFFF0, 0x10010), range(0x1F600, 0x1F610))
